@@ -187,3 +187,21 @@ theorem zipWith_range_ignore {β γ : Type} (l : List β) (G : β → γ) :
   · simp
   · intro i h1 h2
     simp
+
+theorem applyEst_single (f : Inst α → α) : applyEst (Est.single f) = f := by
+  funext x; rfl
+
+theorem numbered_zipWith_fst {β γ : Type} (a : Nat) (es : List (Est α)) (tr : List β) (F : Nat → β → γ) :
+    List.zipWith (fun (e : Nat × Est α) t => F e.1 t) (numbered a es) tr =
+      List.zipWith (fun i t => F (a + i) t) (List.range es.length) tr := by
+  unfold numbered
+  apply List.ext_getElem
+  · simp
+  · intro i h1 h2
+    simp
+
+theorem zipWith_range_range {γ : Type} (n : Nat) (G : Nat → γ) :
+    List.zipWith (fun (_ : Nat) b => G b) (List.range n) (List.range n) = (List.range n).map G := by
+  have := zipWith_range_ignore (List.range n) G
+  rw [List.length_range] at this
+  exact this
